@@ -17,6 +17,26 @@
 #define MAP_FIXED_NOREPLACE 0x100000
 #endif
 
+#ifdef VERIF_NO_LAYOUT
+// Sanitizer configurations: the heap belongs to the sanitizer (it must see every allocation to report overflows and
+// use-after-free), so the seeded layout is switched off: same interface, plain malloc underneath.
+void (*sim_layout_free_hook)(void *, size_t) = nullptr;
+namespace sim
+{
+  namespace layout
+  {
+    void start(uint64_t, bool, size_t) {}
+    void *pool_alloc(size_t n) { return ::operator new(n); }
+    void pool_free(void *p) { ::operator delete(p); }
+    void stop() {}
+    bool active() { return false; }
+    void suspend() {}
+    void resume() {}
+    uint64_t allocations() { return 0; }
+    size_t bytes_used() { return 0; }
+  } // namespace layout
+} // namespace sim
+#else
 // optional observer of freed blocks (the PAR engine's race detector drops its shadow cells)
 void (*sim_layout_free_hook)(void *, size_t) = nullptr;
 
@@ -278,3 +298,4 @@ void operator delete(void *p, std::align_val_t) noexcept { free(p); }
 void operator delete[](void *p, std::align_val_t) noexcept { free(p); }
 void operator delete(void *p, size_t, std::align_val_t) noexcept { free(p); }
 void operator delete[](void *p, size_t, std::align_val_t) noexcept { free(p); }
+#endif
